@@ -35,3 +35,7 @@ def run(ctx):
     ctx.sample({"case": cs[-1]["ty"], "value": cs[-1]["val"], "bytes": events[-1]["b"]})
     ctx.validate("Trace_Codec", events, header={"schema": msgev.world()["schema"]}, shard=1500, weight=lambda e: 1 + len(e["b"]) // 40)
     ctx.notes["cases_by_type"] = {t: sum(1 for c in cs if c["ty"] == t) for t in msgev.world()["schema"]["types"]}
+
+
+def redrive(ev):
+    return msgev.rt_event({"ty": ev["ty"], "val": ev["val"], "tag": ev.get("case", {}).get("tag", "")})
